@@ -156,7 +156,8 @@ func C15Scenarios(tier string) []*h.Scenario {
 			f1 := v1.Taint{Key: "dedicated", Value: "batch", Effect: v1.TaintEffectNoSchedule}
 			f2 := v1.Taint{Key: "node.kubernetes.io/unreachable", Effect: v1.TaintEffectNoExecute}
 			f3 := v1.Taint{Key: "atlassian.com/escalator-like", Value: "1", Effect: v1.TaintEffectPreferNoSchedule}
-			n1 := hh.W.AddNode(a, sim.NodeOpt{Age: 20 * Q, Foreign: []v1.Taint{f1, f2, f3}})
+			f1b := v1.Taint{Key: "dedicated", Value: "batch", Effect: v1.TaintEffectNoExecute} // same key, other effect
+			n1 := hh.W.AddNode(a, sim.NodeOpt{Age: 20 * Q, Foreign: []v1.Taint{f1, f2, f1b, f3}})
 			n1.Labels["extra"] = "label"
 			n1.Annotations = map[string]string{"note": "keep me"}
 			hh.W.AddPod(podOn(g, n1.Name, 100))
@@ -168,8 +169,12 @@ func C15Scenarios(tier string) []*h.Scenario {
 		}
 		s.Events = func(hh *h.Hist, slot int) []h.Event {
 			var ev []h.Event
-			for _, n := range groupNodes(hh, g, 4) {
+			for i, n := range groupNodes(hh, g, 4) {
 				ev = append(ev, evExtTaint(n.Name, "now-1q"), evExtUntaint(n.Name))
+				if i >= 2 {
+					// an escalator taint put on by hand with a value that is not a time: never rewritten
+					ev = append(ev, evExtTaint(n.Name, "abc"))
+				}
 			}
 			ev = append(ev, evStale(), evBurst(g, 3, 1000), evClearAllPods(g), evRestart(), evSkipSettle())
 			return ev
@@ -185,6 +190,8 @@ func c15Grid(t *testing.T, tier string, shard, shards int, c *h.Collector) {
 		{Key: "dedicated", Value: "batch", Effect: v1.TaintEffectNoSchedule},
 		{Key: "node.kubernetes.io/unreachable", Effect: v1.TaintEffectNoExecute},
 		{Key: "atlassian.com/escalator-force", Value: "x", Effect: v1.TaintEffectPreferNoSchedule},
+		// same key as the first one with another effect: legal (the API server requires key + effect to be unique)
+		{Key: "dedicated", Value: "batch", Effect: v1.TaintEffectNoExecute},
 	}
 	var orders [][]int
 	var rec func(cur []int, used int)
@@ -289,7 +296,7 @@ func init() {
 	register(&Check{
 		ID:    "C15",
 		Level: "model_checking",
-		Rule: "grid: AddToBeRemovedTaint / DeleteToBeRemovedTaint on every node with 0..3 foreign taints in every order, the escalator taint absent or at every position, four effects, unschedulable on/off, extra labels/annotations on/off; " +
+		Rule: "grid: AddToBeRemovedTaint / DeleteToBeRemovedTaint on every node with 0..4 foreign taints (two of them sharing a key) in every order, the escalator taint absent or at every position, four effects, unschedulable on/off, extra labels/annotations on/off; " +
 			"histories (deviation-bounded DFS) that taint, untaint and re-taint the same nodes under stale views, external taints and restarts, three configured effects; every node update of every scan is diffed against the API store; " +
 			"non-trivial = every grid case, and scans with a taint or untaint write; distinct = grid case / (slot, class, node, pods, age)",
 		Grid:      c15Grid,
@@ -304,6 +311,6 @@ func init() {
 		Prune:       true,
 		Nontrivial:  seenKeys,
 		Assumptions: commonAssumptions,
-		Alphabet:    []string{"grid over node shapes", "ext-taint(i, now-1q)", "ext-untaint(i)", "stale-view", "burst", "clear-pods", "restart", "skip-settle", "fail at DescribeAutoScalingGroups (5 s retry sleep before the scan)"},
+		Alphabet:    []string{"grid over node shapes", "ext-taint(i, now-1q | abc)", "ext-untaint(i)", "stale-view", "burst", "clear-pods", "restart", "skip-settle", "fail at DescribeAutoScalingGroups (5 s retry sleep before the scan)"},
 	})
 }
